@@ -56,7 +56,9 @@ func concOps() []concOp {
 		tr("fragment", func(s *astisub.Subtitles, r *rng) { s.Fragment(time.Duration(r.rangeI(1, 5)) * time.Second) }),
 		tr("unfragment", func(s *astisub.Subtitles, r *rng) { s.Unfragment() }),
 		tr("order", func(s *astisub.Subtitles, r *rng) { s.Order() }),
-		tr("force", func(s *astisub.Subtitles, r *rng) { s.ForceDuration(time.Duration(r.rangeI(1, 20000))*time.Millisecond, r.bool()) }),
+		tr("force", func(s *astisub.Subtitles, r *rng) {
+			s.ForceDuration(time.Duration(r.rangeI(1, 20000))*time.Millisecond, r.bool())
+		}),
 		tr("lincorr", func(s *astisub.Subtitles, r *rng) {
 			s.ApplyLinearCorrection(time.Second, 2*time.Second, 5*time.Second, time.Duration(r.rangeI(6000, 9000))*time.Millisecond)
 		}),
